@@ -119,6 +119,9 @@ func (c *Cluster) respond(e *Entry, mode string) {
 			keys = append(keys, int(k))
 		}
 		sort.Ints(keys)
+		if isErr && code != 35 {
+			keys = nil // a broker lists its versions with UNSUPPORTED_VERSION only; other errors come with an empty list
+		}
 		for _, k := range keys {
 			r := vs[protocol.ApiKey(k)]
 			res.ApiKeys = append(res.ApiKeys, apiversions.ApiKeyResponse{ApiKey: int16(k), MinVersion: r.Min, MaxVersion: r.Max})
